@@ -328,6 +328,8 @@ func (s *Handler) ReloadConf(newConf *conf.Path) {
 	ctx := s.ctx
 
 	if !s.running {
+		// run() is not active: store the configuration for the next Start.
+		s.Conf = newConf
 		return
 	}
 
